@@ -76,6 +76,32 @@ SigC(p, C, n, S, M) ==
       [] OTHER -> [t \in T |-> Undef]
 
 ---------------------------------------------------------------------------
+\* Signals that begin at different times.  A variable is defined from its first sample on; a sub-formula is defined where
+\* all its variables are (its domain is [begin of its latest variable, infinity)), and it is evaluated *on its own domain*:
+\* in  once(x >= 1) and (y >= 0)  with x from 0 and y from 2, the value at time 2 sees x on [0, 2] although the result
+\* begins at 2 (rtamt evaluates every operator on the whole operand and intersects the domains at binary operators).
+\* SigD applies the clauses of SigC node by node: the operands' results, cut to the common domain, take the place of input
+\* signals.  C: cells over the union domain 1..n (anything before a variable's begin), O[v]: cells before the begin of v.
+\* Result: [o |-> leading cells on which p is undefined, s |-> its values on cells o+1 .. n].
+VarL == [op |-> "var", v |-> "L_"]
+VarR == [op |-> "var", v |-> "R_"]
+RECURSIVE SigD(_, _, _, _, _, _)
+SigD(p, C, O, n, S, M) ==
+  IF p.op = "var" THEN [o |-> O[p.v], s |-> [k \in 1..(n - O[p.v]) |-> C[p.v][k + O[p.v]]]]
+  ELSE IF p.op = "const" THEN [o |-> 0, s |-> [k \in 1..n |-> p.c]]
+  ELSE IF p.op \in Un1 THEN
+    LET L == SigD(p.l, C, O, n, S, M) IN
+    [o |-> L.o, s |-> SigC([p EXCEPT !.l = VarL], [v \in {"L_"} |-> L.s], n - L.o, S, M)]
+  ELSE
+    LET L == SigD(p.l, C, O, n, S, M)
+        R == SigD(p.r, C, O, n, S, M)
+        o == IF L.o >= R.o THEN L.o ELSE R.o
+        cl == [k \in 1..(n - o) |-> L.s[k + o - L.o]]
+        cr == [k \in 1..(n - o) |-> R.s[k + o - R.o]] IN
+    IF p.op = "pred" THEN [o |-> o, s |-> [t \in 1..(n - o) |-> PredIA(p, cl[t], cr[t], M)]]
+    ELSE [o |-> o, s |-> SigC([p EXCEPT !.l = VarL, !.r = VarR], [v \in {"L_", "R_"} |-> IF v = "L_" THEN cl ELSE cr], n - o, S, M)]
+
+---------------------------------------------------------------------------
 \* Boolean satisfaction on cells (property C07 in dense time), defined independently of SigC
 RECURSIVE SatC(_, _, _, _)
 SatC(p, C, n, S) ==
@@ -133,6 +159,20 @@ DomEnd(W, vs)   == CHOOSE t \in {LastT(W[v]) : v \in vs} : \A u \in vs : LastT(W
 
 \* cells of the input signals on the common domain [d0, d1]
 CellsOf(W, vs, d0, d1) == [v \in vs |-> [k \in 1..(d1 - d0 + 1) |-> StepAt(W[v], d0 + k - 1)]]
+
+\* the same when the signals begin at different times: the robustness of p on the cells of the common domain
+\* [DomBegin, dS], every sub-formula evaluated on its own domain (SigD)
+DomMin(W, vs) == CHOOSE t \in {FirstT(W[v]) : v \in vs} : \A u \in vs : FirstT(W[u]) >= t
+SameStart(W, vs) == \A u, v \in vs : FirstT(W[u]) = FirstT(W[v])
+SigDOf(p, W, vs, dS, S, M) ==
+  LET dm == DomMin(W, vs) IN
+  SigD(p, CellsOf(W, vs, dm, dS), [v \in vs |-> FirstT(W[v]) - dm], dS - dm + 1, S, M)
+SigOnDomain(p, W, vs, dS, S, M) ==
+  LET d0 == DomBegin(W, vs)
+      R == SigDOf(p, W, vs, dS, S, M)
+      sh == d0 - DomMin(W, vs) - R.o IN
+  [k \in 1..(dS - d0 + 1) |-> R.s[k + sh]]
+UndefSomewhere(p, W, vs, dS, S, M) == \E q \in SubF(p) : HasUndef(SigDOf(q, W, vs, dS, S, M).s)
 
 Monotone(sl) == \A i \in 1..(Len(sl) - 1) : sl[i][1] <= sl[i+1][1]
 =============================================================================
